@@ -31,7 +31,9 @@ func (mluc *MultiLocalisedUnicode) getString(language [2]byte, country [2]byte) 
 
 func (mluc *MultiLocalisedUnicode) getStringForLanguage(language [2]byte) string {
 	for _, s := range mluc.entriesByLanguageCountry[language] {
-		return s
+		if s != "" {
+			return s
+		}
 	}
 	return ""
 }
